@@ -5,7 +5,7 @@ CONSTANTS
   Amts = {"1","2","3","5"}
   MaxT = 12
   TStep = 3
-  MaxLen = 7
+  MaxLen = 8
   SplitMaxP = 0
   SplitMaxAmt = 0
   Defects = {"aggregate_lock_pairs_grants"}
